@@ -70,6 +70,10 @@ size_t g_ctr_len;
 	M128_BYTE(v, 8) == (b)[8] && M128_BYTE(v, 9) == (b)[9] && M128_BYTE(v, 10) == (b)[10] && M128_BYTE(v, 11) == (b)[11] && \
 	M128_BYTE(v, 12) == (b)[12] && M128_BYTE(v, 13) == (b)[13] && M128_BYTE(v, 14) == (b)[14] && M128_BYTE(v, 15) == (b)[15])
 
+#define B8_EQ_M128LO(v, b) ( \
+	M128_BYTE(v, 0) == (b)[0] && M128_BYTE(v, 1) == (b)[1] && M128_BYTE(v, 2) == (b)[2] && M128_BYTE(v, 3) == (b)[3] && \
+	M128_BYTE(v, 4) == (b)[4] && M128_BYTE(v, 5) == (b)[5] && M128_BYTE(v, 6) == (b)[6] && M128_BYTE(v, 7) == (b)[7])
+
 /*
  * Abstract block cipher contract (G3).  in/out may alias (documented: "in and out can overlap").
  *   crypto_aes_encrypt_block(in, out, key):   out := E(key, in)
